@@ -52,4 +52,35 @@ example : judgeEv (pop ++ [.tickBegin, .beat 2, .beatEnd 2, .beat 3, .beatEnd 3,
 example : judgeEv (pop ++ [.tickBegin, .beat 2, .err 2, .tickAbort, .hbs 0 [4, 3], .tickBegin, .beat 3, .beatEnd 3, .tickEnd]) = [] := by
   decide
 
+-- clause "every heart_beat starts from a clean context" (command_giver only for living objects, fresh evaluation cost)
+example : judgeEv (pop ++ [.tickBegin, .beat 2, .ctx 2 false (some 2) true]) ≠ [] := by decide     -- not living, yet this_player() = itself
+example : judgeEv (pop ++ [.living 3, .tickBegin, .beat 2, .ctx 2 false (some 3) true]) ≠ [] := by decide   -- a stranger leaked in
+example : judgeEv (pop ++ [.living 2, .tickBegin, .beat 2, .ctx 2 true none true]) ≠ [] := by decide      -- living, but no command_giver
+example : judgeEv (pop ++ [.tickBegin, .beat 2, .burn 2, .beatEnd 2, .beat 3, .ctx 3 false none false]) ≠ [] := by decide   -- cost not reset
+example : judgeEv (pop ++ [.tickBegin, .beat 2, .ctx 3 false none true]) ≠ [] := by decide                 -- context of somebody else
+example : judgeEv (pop ++ [.ctx 2 false none true]) ≠ [] := by decide                                      -- outside a heart_beat
+-- clause "a caught error switches nothing off"
+example : judgeEv (pop ++ [.tickBegin, .beat 2, .caught 2, .hbs 2 [4, 3]]) ≠ [] := by decide
+example : judgeEv (pop ++ [.tickBegin, .beat 2, .caught 2, .beatEnd 2, .tickAbort]) ≠ [] := by decide      -- no abort without an uncaught error
+-- clause "reload_object = switch off, then create() again"
+example : judgeEv (pop ++ [.reload 0 2 1 1, .hbs 0 [4, 3, 2]]) ≠ [] := by decide                            -- kept its old place
+example : judgeEv (pop ++ [.reload 0 2 0 1]) ≠ [] := by decide                                             -- still enabled
+example : judgeEv (pop ++ [.tickBegin, .beat 2, .reload 2 3 1 1, .beatEnd 2, .beat 3]) ≠ [] := by decide    -- re-enabled during the round: not served in it
+example : judgeEv (pop ++ [.reload 0 2 1 1, .reload 0 2 1 1, .hbs 0 [2, 2, 4, 3]]) ≠ [] := by decide          -- double entry
+-- clause "a replaced program has no heart_beat: on the list, never called; swapped between rounds only"
+example : judgeEv (pop ++ [.rp 2, .rpDone 2, .tickBegin, .beat 2]) ≠ [] := by decide
+example : judgeEv (pop ++ [.rp 2, .rpDone 2, .hbs 0 [4, 3]]) ≠ [] := by decide                              -- must stay on the list
+example : judgeEv (pop ++ [.tickBegin, .beat 2, .rp 2, .rpDone 2]) ≠ [] := by decide                        -- inside a round
+-- clause "no round while timer_flags has no TIMER_FLAG_HEARTBEAT"
+example : judgeEv (pop ++ [.tflags 0, .tickOff, .beat 2]) ≠ [] := by decide
+example : judgeEv (pop ++ [.tflags 0, .tickOff, .tickEnd, .hbs 0 []]) ≠ [] := by decide                       -- the list is kept
+example : judgeEv (pop ++ [.tickBegin, .beat 2, .tickOff]) ≠ [] := by decide
+-- accepted counterparts
+example : judgeEv (pop ++ [.living 2, .tickBegin, .beat 2, .ctx 2 true (some 2) true, .burn 2, .caught 2, .beatEnd 2, .beat 3,
+                           .ctx 3 false none true, .reload 3 3 2 2, .rp 3, .beatEnd 3, .tickEnd, .hbs 0 [3, 4, 2]]) = [] := by
+  decide
+example : judgeEv (pop ++ [.rp 3, .rpDone 3, .tflags 0, .tickOff, .tickEnd, .tflags 2, .tickBegin, .beat 2,
+                           .ctx 2 false none true, .beatEnd 2, .tickEnd, .hbs 0 [4, 3, 2]]) = [] := by
+  decide
+
 end NV.C11
